@@ -288,6 +288,10 @@ func (comp) Extra(prop string, tier string, seed int64, scratch string) *core.Ex
 	if tier == "thorough" {
 		rounds, scale, budget = 60, 3, 9*time.Minute
 		c.watchdog = 120 * time.Second
+		if prop != "C14" && prop != "" {
+			// the per-property subsets of the engine (extras of C01 C02 C05 C06 C12 C13 C15 C16 C17 C20): a third of C14's budget each
+			rounds, scale, budget = 30, 3, 3*time.Minute
+		}
 	}
 	if raceEnabled {
 		c.add("race_detector_on", 1)
